@@ -412,6 +412,24 @@ theorem plus_acyclic (s : Forest) (a b : Nat) (hi : s.Inv) (ha : s.Acyclic) : (s
   · exact add_acyclic s.fresh s.n [a, b] false (fresh_inv s hi) (fresh_acyclic s ha)
   · exact ha
 
+theorem unlinked_acyclic (s : Forest) (c : Nat) (removed : List Nat) (ha : s.Acyclic) :
+    (s.unlinked c removed).Acyclic := by
+  refine acyclic_of_sub s _ ?_ ha
+  intro o d h
+  rw [unlinked_parent] at h
+  split at h
+  · cases h
+  · exact h
+
+theorem replaceChildren_acyclic (s : Forest) (c : Nat) (removed new : List Nat) (hi : s.Inv) (ha : s.Acyclic)
+    (hsub : ∀ x ∈ removed, x ∈ s.children c) : (s.replaceChildren c removed new).1.Acyclic := by
+  by_cases hr : (s.replaceChildren c removed new).2 = false
+  · rw [replaceChildren_rejected s c removed new hi hsub hr]; exact ha
+  · rw [replaceChildren_eq] at hr ⊢
+    split
+    · exact add_acyclic _ c new true (unlinked_inv s c removed hi hsub) (unlinked_acyclic s c removed ha)
+    · rename_i h2; rw [if_neg h2] at hr; simp at hr
+
 theorem step_acyclic (s : Forest) (op : FOp) (hi : s.Inv) (ha : s.Acyclic) : (s.step op).1.Acyclic := by
   cases op with
   | add c objs ov => exact add_acyclic s c objs ov hi ha
@@ -425,11 +443,14 @@ theorem step_acyclic (s : Forest) (op : FOp) (hi : s.Inv) (ha : s.Acyclic) : (s.
     | some c => exact add_acyclic s c [o] true hi ha
   | setChildren c objs =>
     simp only [step]; split
-    · exact add_acyclic _ c objs true (dropWhere_inv s c _ hi).1 (fold_detach_acyclic _ s ha)
+    · exact replaceChildren_acyclic s c _ objs hi ha (fun _ hx => hx)
     · exact ha
   | setTyped c k objs =>
     simp only [step]; split
-    · exact add_acyclic _ c _ true (dropWhere_inv s c _ hi).1 (fold_detach_acyclic _ s ha)
+    · unfold setTyped
+      split
+      · exact ha
+      · exact replaceChildren_acyclic s c _ _ hi ha (typed_removed_sub s c k)
     · exact ha
   | plus a b => exact plus_acyclic s a b hi ha
   | rejected => exact ha
